@@ -416,7 +416,10 @@ def _k7(run, ctx, L, K7):
                 if isinstance(n, ast.Call) and call_name(n) == "set_config_value" and len(n.args) >= 2:
                     v = repo.fold(f.module, n.args[1])
                     if isinstance(v, str):
-                        top_keys.add(v)
+                        if isinstance(n.args[0], ast.Subscript):
+                            lang_keys.add(v)
+                        else:
+                            top_keys.add(v)
                 if isinstance(n, ast.Assign) and isinstance(n.targets[0], ast.Subscript):
                     t = n.targets[0]
                     k = repo.fold(f.module, t.slice)
